@@ -208,6 +208,25 @@ def check_constraint(c, rep=None, want=None, capture=True):
                     fails[j] = (fails[j][0] + ":after-parameter-set", fails[j][1])
             except Exception as ex:
                 fails.add("exception:solve-after-parameter-set:" + type(ex).__name__, method=method, msg=str(ex)[:200])
+        if not fails:
+            # the same constraint BETWEEN companions of other senses (A0 <= 5 written before it, zz >= -5 after it, and
+            # the reverse order): what is handed over for each row depends on that row alone
+            for order in ("le-first", "ge-first"):
+                le, ge = ("cmp", "<=", ("var", "A0"), ("c", 5.0)), ("cmp", ">=", ("var", "zz"), ("c", -5.0))
+                cs3 = (le, c, ge) if order == "le-first" else (ge, c, le)
+                pr3 = PR.prob("min", obj, cs3, (), tuple(params.items()))
+                try:
+                    P3, _, _ = PR.build_problem(pr3)
+                    with Seam(script=[lambda call: result(np.zeros(n), fun=0.0)] * 2, passthrough=False) as s4:
+                        P3.solve(method=method)
+                    before = len(fails)
+                    CAP.check_constraints(s4.calls[0].kw, pr3, names, fails, rep, params)
+                    for j in range(before, len(fails)):
+                        fails[j] = (fails[j][0] + ":between-companions", dict(fails[j][1], order=order))
+                    if rep:
+                        rep.transitions += 1
+                except Exception as ex:
+                    fails.add("exception:solve-with-companions:" + type(ex).__name__, method=method, order=order, msg=str(ex)[:200])
         if not params and not fails:
             # the objective of the solved problem is REPLACED by one over another variable set of the same size (A0
             # leaves, zzz joins: every constraint column shifts by one): the relation handed over is still the user's
